@@ -79,6 +79,15 @@ fn request(k: usize, sender: usize) -> Request<Bytes> {
     if sender > 0 {
         r = r.with_extension(ids()[sender - 1]);
     }
+    // the connection metadata an inbound request carries next to the sender's identity: who
+    // dialed the connection it came over, and its direction (varied with the request index;
+    // none of it may change an authorizer's verdict)
+    match k % 4 {
+        0 => r = r.with_extension(anemo::ConnectionOrigin::Outbound).with_extension(anemo::Direction::Inbound),
+        1 => r = r.with_extension(anemo::ConnectionOrigin::Inbound).with_extension(anemo::Direction::Inbound),
+        2 => {}
+        _ => r = r.with_extension(anemo::ConnectionOrigin::Outbound),
+    }
     r
 }
 
@@ -359,7 +368,7 @@ impl Check for C20 {
         CheckMeta {
             property: "C20",
             level: "model_checking",
-            rule: "authorizers: AllowedPeers over every subset of 3 identities, 14 pairs of nested AllowedPeers layers (outer list around inner list), 7 pairs of independent AllowedPeers layers side by side (requests alternate between the two), accept-all, reject-with-custom-response, reject-by-sender, mutate-then-accept; request sequences: every sequence of 1-3 (quick) / 1-4 (thorough) senders from {no identity, 3 identities, a 4th} dispatched round-robin over 3 instances of the layered service (two clones + one built again from the layer); every poll order and every completion order; the inner service counts invocations when `call` is made; states = executions, transitions = requests; distinct = distinct accept/refuse shapes".into(),
+            rule: "authorizers: AllowedPeers over every subset of 3 identities, 14 pairs of nested AllowedPeers layers (outer list around inner list), 7 pairs of independent AllowedPeers layers side by side (requests alternate between the two), accept-all, reject-with-custom-response, reject-by-sender, mutate-then-accept; request sequences: every sequence of 1-3 (quick) / 1-4 (thorough) senders from {no identity, 3 identities, a 4th} (each request also carries connection metadata - dialed-by-us / dialed-by-them, direction - varied with its index) dispatched round-robin over 3 instances of the layered service (two clones + one built again from the layer); every poll order and every completion order; the inner service counts invocations when `call` is made; states = executions, transitions = requests; distinct = distinct accept/refuse shapes".into(),
             assumptions: vec!["hand-driven executor; the authorizers are synchronous, as the trait requires".into(), "a supplementary FREE-RUNNING pass (4 OS threads issuing the first requests through clones of a fresh 20 000-entry allow-list, 160 | 1600 trials, exact oracle) samples races in state shared between clones; counted under free_running_trials, not part of the exhaustive claim".into()],
             exhaustive: true,
         }
